@@ -6,11 +6,40 @@ package planner
 
 // ---- LIMIT and ORDER BY as the planner applies them (C12) ---------------------------------
 
+// The stages of a query run in this order: pattern (1), projection and grouping (2), ORDER BY (3),
+// HAVING (4), LIMIT (5). Each stage function requires the stage before it and sets its own;
+// queryPlan.Execute is checked against these preconditions (everything else in Execute - Init, the
+// goroutine fan-out of the pattern stage - is outside the subset and havoced).
+//@ ghost field queryPlan.#stage Int
+//@ props C12 C13 C11 C03
+//@ func (p *queryPlan) processGraphPattern
+//@   nobody
+//@   opt modifies-everything
+//@   requires[stage] p != nil && p.#stage == 0
+//@   ensures[stage] p.#stage == 1
+//@ func (p *queryPlan) projectAndGroupBy
+//@   nobody
+//@   opt modifies-everything
+//@   requires[stage] p != nil && p.#stage == 1
+//@   ensures[stage] p.#stage == 2
+//@ func (p *queryPlan) having
+//@   nobody
+//@   opt modifies-everything
+//@   requires[stage] p != nil && p.#stage == 3
+//@   ensures[stage] p.#stage == 4
+//@ func (p *queryPlan) Execute
+//@   opt modifies-everything
+//@   opt obligations pre:stage post
+//@   requires p != nil && p.#stage == 0
+//@   ensures[all-stages-ran] result1 == nil ==> p.#stage == 5
+
 //@ props C12 C08
 //@ func (p *queryPlan) limit
 //@   requires p != nil && p.stm != nil && p.tbl != nil && p.tbl.#lock_mu == 0
+//@   requires[stage] p.#stage == 4
+//@   ghostset p.#stage = 5
 //@   requires[limit-is-not-negative] p.stm.limitSet ==> p.stm.limit >= 0
-//@   modifies p.tbl.Data, p.tbl.#lock_mu
+//@   modifies p.tbl.Data, p.tbl.#lock_mu, p.#stage
 //@   ensures[lock] p.tbl.#lock_mu == 0
 //@   ensures[first-rows] p.stm.limitSet ==> len(p.tbl.Data) == ite(old(len(p.tbl.Data)) > p.stm.limit, p.stm.limit, old(len(p.tbl.Data)))
 //@   ensures[rows-kept] forall k int :: {p.tbl.Data[k]} 0 <= k && k < len(p.tbl.Data) ==> p.tbl.Data[k] == old(p.tbl.Data[k])
@@ -18,8 +47,10 @@ package planner
 
 //@ func (p *queryPlan) orderBy
 //@   requires p != nil && p.stm != nil && p.tbl != nil && p.tbl.#lock_mu == 0
+//@   requires[stage] p.#stage == 2
+//@   ghostset p.#stage = 3
 //@   requires[rows-have-the-keys] sortableRows(p.tbl.Data, p.stm.orderBy)
-//@   modifies p.tbl.Data, p.tbl.#lock_mu
+//@   modifies p.tbl.Data, p.tbl.#lock_mu, p.#stage
 //@   ensures[lock] p.tbl.#lock_mu == 0
 //@   ensures[permutation] perm(old(p.tbl.Data), p.tbl.Data)
 //@   ensures[sorted] len(p.stm.orderBy) > 0 && old(strictWeakOrder(p.tbl.Data, p.stm.orderBy)) ==> sortedBy(p.tbl.Data, p.stm.orderBy)
@@ -34,10 +65,10 @@ package planner
 //@   opt modifies-everything
 //@   opt obligations assert
 //@   requires p != nil && p.stm != nil && p.tbl != nil && cls != nil && lo != nil
-//@   atcall simpleFetch assert[limit-push-down] stmLimit != 0 ==> len(p.stm.pattern) == 1 && len(p.stm.groupBy) == 0 && len(p.stm.havingExpression) == 0 && len(p.stm.orderBy) == 0
+//@   atcall simpleFetch assert[limit-push-down@C12] stmLimit != 0 ==> len(p.stm.pattern) == 1 && len(p.stm.groupBy) == 0 && len(p.stm.havingExpression) == 0 && len(p.stm.orderBy) == 0
 
 //@ func (p *queryPlan) addSpecifiedData
 //@   opt modifies-everything
 //@   opt obligations assert
 //@   requires p != nil && p.stm != nil && p.tbl != nil && cls != nil && lo != nil
-//@   atcall simpleFetch assert[limit-push-down] stmLimit != 0 ==> len(p.stm.pattern) == 1 && len(p.stm.groupBy) == 0 && len(p.stm.havingExpression) == 0 && len(p.stm.orderBy) == 0
+//@   atcall simpleFetch assert[limit-push-down@C12] stmLimit != 0 ==> len(p.stm.pattern) == 1 && len(p.stm.groupBy) == 0 && len(p.stm.havingExpression) == 0 && len(p.stm.orderBy) == 0
